@@ -26,6 +26,13 @@ pub fn fresh_default<A: Actor>(Tracked(w): Tracked<&mut World>) -> (r: A)
     ensures emits(old(w), final(w), Ev::Recreated { gid: r.gid() }),
 { unimplemented!() }
 
+// `std::mem::take(&mut actor)`: hands out the current value and leaves `A::default()` in its place (same automaton event as above)
+#[verifier::external_body]
+pub fn mem_take<A: Actor>(a: &mut A, Tracked(w): Tracked<&mut World>) -> (r: A)
+    requires allowed(old(w).lc, Ev::Recreated { gid: 0 }),
+    ensures emits(old(w), final(w), Ev::Recreated { gid: final(a).gid() }), r.gid() == old(a).gid(),
+{ unimplemented!() }
+
 // the callbacks as future *values* (rule A1b): a callback future that is dropped un-completed never reports its lifecycle event
 #[verifier::external_body] pub struct StartedFut<'a> { p: core::marker::PhantomData<&'a mut ()> }
 impl<'a> StartedFut<'a> { pub uninterp spec fn gid(&self) -> int; pub uninterp spec fn needs(&self) -> nat; }
